@@ -710,12 +710,18 @@ func (t *objectType) IsInstance(o px.Value, g px.Guard) bool {
 }
 
 func (t *objectType) IsParameterized() bool {
-	if !t.parameters.Empty() {
-		return true
-	}
-	p := t.resolvedParent()
-	if p != nil {
-		return p.IsParameterized()
+	// asked while the type is being resolved (A => Object[{parent => A[1]}]): the chain of parents may lead back
+	var seen []*objectType
+	for p := t; p != nil; p = p.resolvedParent() {
+		for _, s := range seen {
+			if s == p {
+				panic(px.Error(px.ObjectInheritsSelf, issue.H{`label`: p.Label()}))
+			}
+		}
+		if !p.parameters.Empty() {
+			return true
+		}
+		seen = append(seen, p)
 	}
 	return false
 }
